@@ -78,6 +78,7 @@ type Enc struct {
 	loopOrd    map[*ssa.BasicBlock]int
 	noPreserve map[string]bool // keys exempt from havoc_preserves during the havoc of one contracted call
 	autoInlined map[string]bool // uncontracted repository functions whose bodies were encoded in place
+	usedCons    map[string]*Contract // repository contracts applied at call sites (their own proofs are pulled into the same check: callee closure)
 	sweep       bool            // `gowp sweep`: reference-typed parameters are assumed non-nil
 }
 
@@ -113,7 +114,7 @@ type frame struct {
 
 func newEnc(eng *Engine, fn *ssa.Function, con *Contract, prop string) *Enc {
 	return &Enc{eng: eng, top: fn, con: con, keys: map[string]string{}, loopMods: map[string]map[string]bool{}, strs: map[string]Term{},
-		notes: map[string]bool{}, typeIDs: map[string]int{}, oblNames: map[string]int{}, prop: prop, assumed: map[string]bool{}, effectFree: map[string]bool{}, havocCalls: map[string]bool{}, autoInlined: map[string]bool{}}
+		notes: map[string]bool{}, typeIDs: map[string]int{}, oblNames: map[string]int{}, prop: prop, assumed: map[string]bool{}, effectFree: map[string]bool{}, havocCalls: map[string]bool{}, autoInlined: map[string]bool{}, usedCons: map[string]*Contract{}}
 }
 
 // run encodes until the heap-key set and the loop modification sets are stable.
